@@ -4,7 +4,7 @@
    declared count (e_shnum, or shdr[0].sh_size when it is 0; e_phnum, or shdr[0].sh_info when it
    is 0xffff). *)
 Require Import V.Base.Prim V.Spec.AbiLayout V.Model.Structs V.Model.Table V.Model.File V.Model.Hash
-        V.Model.ElfBytes V.Proofs.ElfBytesP.
+        V.Model.ElfBytes V.Model.Stream V.Proofs.ElfBytesP V.Proofs.StreamQ V.Proofs.StreamE.
 Open Scope N_scope.
 
 Theorem C05_section_headers : forall eh f, buf_ok f ->
@@ -28,6 +28,13 @@ Proof. exact located_len. Qed.
    then the header is its C02 decoding -- and both tables are absent or located per the rule *)
 Theorem C05_open : forall fam f eb, buf_ok f -> (minimal_parse fam f = Ok eb <-> open_spec fam f eb).
 Proof. exact minimal_parse_iff. Qed.
+
+(* the stream parser: opening (content-only reading of open_prog; C07_open_stream ties it to every
+   fault-free reader) succeeds exactly on an open_spec handle and holds that handle's header and
+   the eager decoding of the two tables located by the rule *)
+Theorem C05_open_stream : forall f, buf_ok f -> forall fam es,
+  eval f (open_prog fam) = Ok es <-> exists eb, open_spec fam f eb /\ es = es_of f eb.
+Proof. exact open_stream_spec. Qed.
 
 (* the section-name string table: none for e_shstrndx = 0, else the data range of section
    e_shstrndx, or of section shdr[0].sh_link when e_shstrndx = SHN_XINDEX *)
